@@ -1,7 +1,7 @@
 """C20 — type-erased value holder keeps value semantics and single ownership.
 
 vs <op>*  : four ValueStore holders; ops set:i:ty:v (h[i] = T(v)), cp:i:j (h[j] = h[i]), sw:i:j, ad:i:ty:v (assimilate(new T(v))),
-            cl:i, su:i (surrender), ra:i (the caller takes a heap object out and hands the same object back), vc:i:ty (value_cast); types 0,1 fit sizeof(void*) (stored in place), 2,3 are heap types
+            cl:i, su:i (surrender), ra:i (the caller takes a heap object out and hands the same object back), sa:i (h = value_cast<T>(h)), vc:i:ty (value_cast); types 0,1 fit sizeof(void*) (stored in place), 2,3 are heap types
 rc <op>*  : four IntrusiveSharedPtr<RefCountable>; new:i, as:i:j (p[j] = p[i]), rs:i
 rcopt <perm> : one Option shared by a group, a copy of the group, two contexts and parsed values, destroyed in the given order
 impl   : real classes with instrumented payloads (identity = id stored inside the object), ASan/LSan
@@ -12,7 +12,7 @@ oracle : from the property: each holder is empty or holds the value last stored 
 import itertools
 ID = "C20"
 MODULE = "PotasscoVerif.Props.C20"
-THEOREMS = ["PotasscoVerif.C20.C20_once", "PotasscoVerif.C20.C20_single_owner", "PotasscoVerif.C20.C20_typed", "PotasscoVerif.C20.C20_set_get",
+THEOREMS = ["PotasscoVerif.C20.C20_once", "PotasscoVerif.C20.C20_single_owner", "PotasscoVerif.C20.C20_typed", "PotasscoVerif.C20.C20_set_get", "PotasscoVerif.C20.C20_self_assign",
             "PotasscoVerif.C20.C20_copy_independent", "PotasscoVerif.C20.step_inv"]
 PARTIAL = {"C20_refcount": "the reference-counting half (IntrusiveSharedPtr, options shared by groups/contexts/parsed values) has a model that is compared with the code, "
            "but no theorem; it is decided by correspondence and the trace oracle (all 120 destruction orders of five holders)"}
@@ -41,7 +41,8 @@ def gen_vs(rng):
         elif k < 0.75: ops.append("ad:%d:%d:%d" % (i, rng.randint(0, 3), rng.randint(-50, 50)))
         elif k < 0.82: ops.append("cl:%d" % i)
         elif k < 0.86: ops.append("su:%d" % i)
-        elif k < 0.92: ops.append("ra:%d" % i)              # surrender + assimilate of the SAME object
+        elif k < 0.90: ops.append("ra:%d" % i)              # surrender + assimilate of the SAME object
+        elif k < 0.94: ops.append("sa:%d" % i)              # typed assignment from the holder's own content
         else: ops.append("vc:%d:%d" % (i, rng.randint(0, 3)))
     return {"comp": "vs", "ops": ops}
 
@@ -53,7 +54,7 @@ def gen_rc(rng):
     return {"comp": "rc", "ops": ops}
 
 def corpus(ctx):
-    return [{"comp": "vs", "ops": "set:0:0:5 set:1:2:7 cp:0:2 sw:1:2 ad:3:0:9 vc:0:0 vc:0:1 su:2 cl:0 set:3:3:1 cp:1:1 sw:0:0 ad:1:2:4 ra:1 vc:1:2 ra:0 ra:3".split()}] + \
+    return [{"comp": "vs", "ops": "set:0:0:5 set:1:2:7 cp:0:2 sw:1:2 ad:3:0:9 vc:0:0 vc:0:1 su:2 cl:0 set:3:3:1 cp:1:1 sw:0:0 ad:1:2:4 ra:1 vc:1:2 ra:0 ra:3 sa:1 vc:1:2 sa:0 sa:2 set:0:1:3 sa:0 vc:0:1".split()}] + \
            [{"comp": "rcopt", "ops": ["".join(p)]} for p in itertools.permutations("gh12p")]
 
 def generate(ctx):
